@@ -74,7 +74,7 @@ func genC19(x *Ctx) *c19Scen {
 	shapes := []struct{ m, p string }{
 		{"GET", "/u/%s"}, {"GET", "/u/%s/sub/k%s"}, {"POST", "/u/%s"}, {"GET", "/v/t%s/items/%s"}, {"PUT", "/u/%s"},
 		{"GET", "/nowhere/%s"}, {"GET", "/u/doc/%s.json"}, {"GET", "/u/num/x%sy"}, {"UNLOCK", "/many/%s"}, {"COPY", "/many/%s"}, {"OPTIONS", "/u/%s"}, {"OPTIONS", "/v/t%s/items/%s"}, {"DELETE", "/v/t%s/items/%s"},
-		{"GET", "/s/plain"}, {"GET", "/s/other"}, {"POST", "/x/form/%s"}, {"POST", "/x/nct/%s"}, {"GET", "/x/err/%s"}, {"POST", "/x/job/%s:cancel"}, {"GET", "/x/job/%s:cancel"}, {"GET", "/x/job/%s"},
+		{"GET", "/s/plain"}, {"GET", "/s/other"}, {"GET", "/s/stream"}, {"GET", "/s/raw"}, {"POST", "/x/form/%s"}, {"POST", "/x/nct/%s"}, {"GET", "/x/err/%s"}, {"POST", "/x/job/%s:cancel"}, {"GET", "/x/job/%s:cancel"}, {"GET", "/x/job/%s"},
 	}
 	tp.Repeat(2, maxSpecs, 650, func(i int) {
 		sh := shapes[tp.G(len(shapes))]
@@ -274,6 +274,31 @@ func c19BuildH(sc *c19Scen, history bool) *restful.Container {
 	ws5 := new(restful.WebService).Path("/s").Produces("application/json")
 	mk(ws5, ws5.GET("/plain"))
 	mk(ws5, ws5.GET("/other"))
+	// the optional interfaces of the writer: a streaming handler flushes between writes, another one
+	// takes the connection over
+	bstream := ws5.GET("/stream").To(func(req *restful.Request, resp *restful.Response) {
+		y(sim.SiteHandler)
+		resp.Write([]byte("first " + req.QueryParameter("q")))
+		resp.Flush()
+		y(sim.SiteHandler)
+		resp.Write([]byte(" second"))
+	})
+	braw := ws5.GET("/raw").To(func(req *restful.Request, resp *restful.Response) {
+		y(sim.SiteHandler)
+		conn, _, err := resp.Hijack()
+		if err != nil {
+			resp.WriteErrorString(500, "no hijack: "+err.Error())
+			return
+		}
+		conn.Write([]byte("raw " + req.QueryParameter("q")))
+		conn.Close()
+	})
+	for i := 0; i < sc.NR; i++ {
+		bstream.Filter(mkf("r", i))
+		braw.Filter(mkf("r", i))
+	}
+	ws5.Route(bstream)
+	ws5.Route(braw)
 	addService(ws1)
 	addService(ws2)
 	addService(ws3)
@@ -330,7 +355,7 @@ func (r *c19Req) serveGone(c *restful.Container, entry int, t *sim.Task, id int,
 	if gone > 0 {
 		w.FaultMode, w.FailAt = sim.WFaultFail, gone-1
 	}
-	esc := Serve(c, entry, w, hr)
+	esc := Serve(c, entry, sim.SimFullWriter{SimWriter: w}, hr)
 	if w.Fired > 0 && t != nil {
 		t.Count("fault-wfail")
 	}
@@ -344,11 +369,19 @@ func c19Response(w *sim.SimWriter, esc interface{}) string {
 		hs = append(hs, k+"="+strings.Join(vs, "|"))
 	}
 	sort.Strings(hs)
+	extra := ""
+	if w.Flushes > 0 || w.Hijacked {
+		extra = fmt.Sprintf(" flushes=%d hijacked=%v conn=%q", w.Flushes, w.Hijacked, w.ConnBytes)
+	}
+	if w.Hijacked {
+		// what the framework tries to write after the take-over is refused by the writer, as by net/http's
+		return fmt.Sprintf("status=%d headers=%v%s escaped=%v", w.Status(), hs, extra, esc)
+	}
 	body, err := Decode(w.H.Get("Content-Encoding"), w.Body)
 	if err != nil {
 		return fmt.Sprintf("status=%d headers=%v UNDECODABLE %v", w.Status(), hs, err)
 	}
-	return fmt.Sprintf("status=%d headers=%v body=%q escaped=%v", w.Status(), hs, body, esc)
+	return fmt.Sprintf("status=%d headers=%v body=%q%s escaped=%v", w.Status(), hs, body, extra, esc)
 }
 
 func runC19(x *Ctx) {
